@@ -13,6 +13,7 @@ import numpy as np
 from rv import core, zoo, monitors
 
 LEVEL = 'exploration'
+LEVEL_TEXT = "Exhaustive enumeration of the must-support index grammar for small shapes against the executable model (ndarray + per-column records), chains of three indexings, assignment, and an alignment invariant hooked on __getitem__ that also fires inside NumPy's own indexing and the pipelines. Exploration (exhaustive over the key grammar for the listed shapes)."
 TECHNIQUE = 'trace comparison against an executable model (ndarray + per-column records) + alignment invariant hooked on __getitem__'
 RULE = ('small generated samples (N in 1..5, D in 1..4, distinct metadata in every attribute per column) x the full '
         'product rows {int,-int,slices incl. negative steps and empty,[ints] incl. repeats and empty,bool mask list/array,'
